@@ -12,8 +12,12 @@ RULE = ("grid: histories of 3-12 color/remove_from_stack_by_key/clear_stack comm
         "clock; every 125 ms tick is observed (get_color before/after the commands, every set_fade the drivers receive, "
         "every brightness command the fade channel issues, the order in which the remove_fade delays fire). "
         "non-trivial = at least one command lands while a fade of the same light is running. "
-        "generic: same kind of history with arbitrary fade lengths (multiples of 25 ms) and a batched back end "
-        "(PlatformBatchLightSystem), oracle only.")
+        "generic: same kind of history with arbitrary fade lengths (multiples of 25 ms), a batched back end "
+        "(PlatformBatchLightSystem) and RGB lights with a colour-correction profile, oracle only. "
+        "45% of the histories of both suites also change the machine variable 'brightness' (0.25..1.0) one to three "
+        "times between commands and draw their colours from three values so that earlier colours return after a change; "
+        "the at-rest oracle compares the hardware with the logical colour corrected in the harness (int(x*factor), then "
+        "the profile's lookup table recomputed from its parameters).")
 TRUSTED_BASE = [
     "Coq 8.16.1 kernel (coqc), vm_compute for refutation witnesses and for evaluating the model in the correspondence run",
     "axioms: none (every Print Assumptions is 'Closed under the global context')",
@@ -24,7 +28,8 @@ TRUSTED_BASE = [
     "harness-defined recording subclasses of LightPlatformDirectFade / PlatformBatchLight (no in-tree direct-fade class exists)",
 ]
 ASSUMPTIONS = [
-    "brightness factor 1.0 and no colour-correction profile (gamma_correct/color_correct are the identity)",
+    "brightness factor in {0.25, 0.5, 0.75, 1.0} (exact floats), changed only between ticks; colour-correction profiles "
+    "are covered by the oracle, not by the model",
     "priorities >= 0, keys are strings, start_time is not passed by the caller",
     "model domain: fade lengths 125 ms * 2^k (float ratios exact); other lengths are covered by the oracle only",
 ]
@@ -35,7 +40,8 @@ PALETTE = [[255, 0, 0], [0, 255, 0], [0, 0, 255], [255, 255, 255], [0, 0, 0], [7
            [254, 255, 253], [10, 200, 90]]
 TICK = 0.125
 T_OFF = 1000000           # model time of tick 0 (ms)
-KIND_NAMES = {0: "rgb", 1: "white", 2: "rgbw", 3: "driverlight", 4: "direct", 5: "batch"}
+KIND_NAMES = {0: "rgb", 1: "white", 2: "rgbw", 3: "driverlight", 4: "direct", 5: "batch", 6: "rgb+profile"}
+PROFILE = {"gamma": 2.5, "whitepoint": [0.9, 0.8, 0.7], "linear_slope": 1.0, "linear_cutoff": 0.0}
 POOL = 30                 # lights of each configured kind per boot
 
 
@@ -46,6 +52,8 @@ def _gen_ops(rng, fades, kinds):
     keys = rng.sample(KEYS, nkeys)
     prios = [rng.choice([0, 0, 1, 1, 2, 5]) for _ in keys]
     nops = rng.randint(3, 12)
+    bright_case = rng.random() < 0.45
+    pal = rng.sample(PALETTE, 3) if bright_case else PALETTE     # few colours: they come back after a change
     ops = []
     interesting = []
     t = 0
@@ -64,7 +72,7 @@ def _gen_ops(rng, fades, kinds):
         ki = rng.randrange(nkeys)
         fade = rng.choice(fades)
         if r < 0.62:
-            c = rng.choice(PALETTE) if rng.random() < 0.7 else [rng.randrange(256) for _ in range(3)]
+            c = rng.choice(pal) if (bright_case or rng.random() < 0.7) else [rng.randrange(256) for _ in range(3)]
             p = prios[ki] if rng.random() < 0.8 else rng.choice([0, 1, 2, 3, 5])
             ops.append([t, "color", c, fade, p, keys[ki]])
         elif r < 0.94:
@@ -74,7 +82,13 @@ def _gen_ops(rng, fades, kinds):
         if fade:
             interesting.append(t + fade_ticks(fade))
     end = max([o[0] for o in ops] + interesting) + 3
-    return {"kind": kind, "nticks": end + 1, "ops": ops}
+    bright = []
+    if bright_case:
+        # changes of the machine variable "brightness" (applied at the end of the tick, after the commands)
+        tks = sorted(set(rng.randrange(0, end) if rng.random() < 0.5 else rng.choice(ops)[0]
+                         for _ in range(rng.randint(1, 3))))
+        bright = [[t, rng.choice([1, 2, 2, 3, 4])] for t in tks]
+    return {"kind": kind, "nticks": end + 1, "ops": ops, "bright": bright}
 
 
 def fade_ticks(fade):
@@ -87,7 +101,7 @@ def gen_grid(rng, tier, i):
 
 def gen_generic(rng, tier, i):
     fades = [0, 0, 25, 50, 100, 125, 175, 300, 375, 450, 750, 1100, 1500, 2900]
-    return _gen_ops(rng, fades, [0, 1, 2, 3, 4, 5, 5, 5])
+    return _gen_ops(rng, fades, [0, 1, 2, 3, 4, 5, 5, 5, 6, 6])
 
 
 # ------------------------------------------------------------------------------------------------
@@ -106,7 +120,9 @@ def _config():
         lights["drv%d" % i] = {"number": "lc%d" % i, "platform": "drivers"}
         lights["dir%d" % i] = {"number": str(500 + i), "subtype": "matrix"}
         lights["bat%d" % i] = {"number": str(700 + i), "subtype": "matrix"}
-    return {"mpf": {"default_light_hw_update_hz": 8}, "coils": coils, "lights": lights}
+        lights["cc%d" % i] = {"number": str(900 + i), "subtype": "led", "color_correction_profile": "p1"}
+    return {"mpf": {"default_light_hw_update_hz": 8}, "coils": coils, "lights": lights,
+            "light_settings": {"color_correction_profiles": {"p1": dict(PROFILE)}}}
 
 
 def _install_recorders():
@@ -201,7 +217,7 @@ def _boot():
             pass
     rig = Rig(_config()).start()
     _R["rig"] = rig
-    _R["used"] = {k: 0 for k in range(6)}
+    _R["used"] = {k: 0 for k in range(7)}
     m = rig.machine
     rec = _R["rec"]
 
@@ -223,7 +239,7 @@ def worker_init():
     _boot()
 
 
-PREFIX = {0: "rgb", 1: "white", 2: "rgbw", 3: "drv", 4: "dir", 5: "bat"}
+PREFIX = {0: "rgb", 1: "white", 2: "rgbw", 3: "drv", 4: "dir", 5: "bat", 6: "cc"}
 
 
 def _fresh_light(kind):
@@ -239,6 +255,17 @@ def run_history(case):
     light = _fresh_light(kind)
     rig = _R["rig"]
     rec = _R["rec"]
+    lc = rig.machine.light_controller
+
+    def set_brightness(f4):
+        rig.machine.variables.set_machine_var("brightness", f4 / 4.0)
+        for _ in range(4):
+            rig.advance(0)
+        return int(round(lc.brightness_factor * 4))
+    if lc.brightness_factor != 1.0:
+        set_brightness(4)
+    fac = int(round(lc.brightness_factor * 4))
+    brt = dict((t, f) for t, f in case.get("bright", []))
     now = rig.now()
     base = math.floor(now) + 2.0
     rig.advance(base - now)
@@ -304,10 +331,17 @@ def run_history(case):
         rig.advance(0)
         post = list(light.get_color())
         cm, hw, hwraw = drain()
-        ticks.append({"fired": fired, "pre": pre, "post": post, "cmds": cm, "hw": hw, "hwraw": hwraw})
+        tkrec = {"fired": fired, "pre": pre, "post": post, "cmds": cm, "hw": hw, "hwraw": hwraw, "fac": fac}
+        if t in brt:
+            fac = set_brightness(brt[t])       # in effect from the next tick on
+            cm2, hw2, _ = drain()
+            if cm2 or hw2:
+                errors.append("hardware commands during a brightness change")
+        tkrec["fac_end"] = fac
+        ticks.append(tkrec)
     # at rest: what the hardware shows / was last told
     final = []
-    if kind in (0, 1, 2):
+    if kind in (0, 1, 2, 6):
         final = [c.current_brightness for c in chans]
     else:
         lastb = None
@@ -344,7 +378,7 @@ def coq_grid(case, out):
     tks = []
     exp = []
     for t, tk in enumerate(out["ticks"]):
-        tks.append("(mkTick %s %s %s)" % (zlit(T_OFF + 125 * t), zlist([KEYS.index(k) for k in tk["fired"]]),
+        tks.append("(mkTick %s %s %s %s)" % (zlit(T_OFF + 125 * t), zlit(tk["fac"]), zlist([KEYS.index(k) for k in tk["fired"]]),
                                           coqlist(cop(o) for o in byt.get(t, []))))
         rows = [tk["pre"] + tk["post"] + [0]] + tk["cmds"] + tk["hw"]
         exp.append(coqlist(zlist(r) for r in rows))
@@ -356,10 +390,39 @@ HDR = "From C09 Require Import Model.\nDefinition run := run_case.\nDefinition o
 
 # ------------------------------------------------------------------------------------------------
 # oracle: the property's predicate on what the implementation did
+def profile_table():
+    """the lookup tables of RGBColorCorrectionProfile.generate_from_parameters, computed here from PROFILE"""
+    if "table" not in _R:
+        g, wp, ls, lco = PROFILE["gamma"], PROFILE["whitepoint"], PROFILE["linear_slope"], PROFILE["linear_cutoff"]
+        scale = 1.0 - lco
+        tab = []
+        for ch in range(3):
+            row = []
+            for i in range(256):
+                v = i / 255.0 * wp[ch]
+                if v * ls <= lco:
+                    v = int(ls * v * 255)
+                else:
+                    v = int(lco + pow((v - ls * lco) / scale, g) * scale * 255)
+                row.append(max(0, min(v, 255)))
+            tab.append(row)
+        _R["table"] = tab
+    return _R["table"]
+
+
+def corrected(kind, c, f4):
+    """brightness (machine variable) and colour correction of a logical colour, independent of light.py"""
+    c = [int(x * (f4 / 4.0)) for x in c]
+    if kind == 6:
+        tab = profile_table()
+        c = [tab[i][c[i]] for i in range(3)]
+    return c
+
+
 def chan_map(kind, c):
     r, g, b = c
     m = min(r, g, b)
-    if kind == 0:
+    if kind in (0, 6):
         return [r, g, b]
     if kind == 2:
         return [r - m, g - m, b - m, m]
@@ -430,12 +493,33 @@ def oracle(case, out):
                         break
     # at rest (the history ends after every fade): hardware == logical colour
     last = out["ticks"][-1]
-    want = [x / 255.0 for x in chan_map(kind, last["post"])]
+    for t, f4 in case.get("bright", []):
+        if t < len(out["ticks"]) and out["ticks"][t]["fac_end"] != f4:
+            fails.append({"sig": "brightness-var-ignored", "what": "machine variable brightness=%s/4 at tick %d, "
+                          "light controller factor %s/4" % (f4, t, out["ticks"][t]["fac_end"])})
+    fac_now = last["fac_end"]
+    fac_cmd = 4
+    for tk in out["ticks"]:
+        if tk["cmds"]:
+            fac_cmd = tk["fac"]          # factor in effect when the last command was sent
+    want = [x / 255.0 for x in chan_map(kind, corrected(kind, last["post"], fac_now))]
+    want_cmd = [x / 255.0 for x in chan_map(kind, corrected(kind, last["post"], fac_cmd))]
     got = [0.0 if g is None else g for g in out["final"]]     # never commanded: still off
-    if len(got) != len(want) or any(abs(g - w) > 1e-9 for g, w in zip(got, want)):
-        fails.append({"sig": "hw-differs-at-rest",
-                      "what": "all fades finished: last commanded brightness %s, logical colour %s (channels %s), %s light"
-                              % (got, last["post"], want, KIND_NAMES[kind])})
+
+    def same(a, b):
+        return len(a) == len(b) and all(abs(x - y) <= 1e-9 for x, y in zip(a, b))
+    if not same(got, want):
+        if fac_cmd != fac_now and same(got, want_cmd):
+            # exactly the recorded defect: the brightness changed after the last command this light was sent
+            # (a repeated command for the same colour is suppressed by _schedule_update) and is never propagated
+            fails.append({"sig": "brightness-change-not-propagated",
+                          "what": "brightness changed to %s/4 after the light's last hardware command (sent at %s/4); the "
+                                  "hardware still shows %s, corrected logical colour is %s" % (fac_now, fac_cmd, got, want)})
+        else:
+            fails.append({"sig": "hw-differs-at-rest",
+                          "what": "all fades finished: last commanded brightness %s, logical colour %s, corrected for "
+                                  "brightness %s/4 -> channels %s, %s light"
+                                  % (got, last["post"], fac_now, want, KIND_NAMES[kind])})
     if any(tr for _, _, tr in out["stack"]):
         fails.append({"sig": "fadeout-left-behind", "what": "a fade-out entry is still on the stack at rest: %s" % out["stack"]})
     seen = set()
@@ -454,9 +538,13 @@ def shrink(case):
     for i, o in enumerate(ops):
         if o[1] == "color" and o[2] not in ([255, 255, 255], [0, 0, 0]):
             yield dict(case, ops=ops[:i] + [[o[0], "color", [255, 255, 255], o[3], o[4], o[5]]] + ops[i + 1:])
-    if ops and ops[0][0] > 0:
+    br = case.get("bright", [])
+    for i in range(len(br)):
+        yield dict(case, bright=br[:i] + br[i + 1:])
+    if ops and ops[0][0] > 0 and all(b[0] >= ops[0][0] for b in br):
         d = ops[0][0]
-        yield dict(case, nticks=case["nticks"] - d, ops=[[o[0] - d] + o[1:] for o in ops])
+        yield dict(case, nticks=case["nticks"] - d, ops=[[o[0] - d] + o[1:] for o in ops],
+                   bright=[[b[0] - d, b[1]] for b in br])
 
 
 def nontrivial(case, out):
@@ -471,7 +559,7 @@ def nontrivial(case, out):
 
 
 def describe(case):
-    return "%s ops=%d" % (KIND_NAMES[case["kind"]], len(case["ops"]))
+    return "%s ops=%d%s" % (KIND_NAMES[case["kind"]], len(case["ops"]), " +brightness" if case.get("bright") else "")
 
 
 SUITES = [
